@@ -861,20 +861,32 @@ func ruleSHR1(p *Program, c *Check, sh *SharedInfo, funcs []*ssa.Function) {
 	c.Rule("SHR-1", "no instruction reachable from a handler writes (store, map update, copy, delete, in-place sort, decode, PRNG advance) "+
 		"through a pointer that may refer to a package-level variable or to an object allocated by an initialiser "+
 		"(tabled exception: the sync.Once-guarded schema cache in main.Make)", 150)
+	shr1(p, c, sh, funcs, "SHR-1")
+}
+
+// ruleSHR1Handlers: the same rule restricted to the handler layer (package main), for the properties that are not about
+// shared state themselves but are stated for every request.
+func ruleSHR1Handlers(p *Program, c *Check, sh *SharedInfo, funcs []*ssa.Function) {
+	c.Rule("SHR-H", "the handler layer (package main) writes nothing that outlives the request: the value handed to the library carries nothing over "+
+		"from an earlier request (no pooled or package-level request objects; tabled exception: the sync.Once-guarded schema cache in main.Make)", 5)
+	shr1(p, c, sh, funcs, "SHR-H")
+}
+
+func shr1(p *Program, c *Check, sh *SharedInfo, funcs []*ssa.Function, rule string) {
 	for _, f := range funcs {
 		fk := funcKey(f)
 		for _, w := range writeSites(p, f) {
 			construct := w.What + ":" + describeValue(w.Target)
 			shared, why := sh.MayBeShared(w.Target)
 			if !shared {
-				c.Pass("SHR-1", fk, construct, p.ipos(w.Instr), "")
+				c.Pass(rule, fk, construct, p.ipos(w.Instr), "")
 				continue
 			}
 			if strings.HasPrefix(fk, "main.Make$") && onceGuarded(p, f) {
-				c.Pass("SHR-1", fk, construct, p.ipos(w.Instr), "exception: executed once under sync.Once.Do (lazy schema cache)")
+				c.Pass(rule, fk, construct, p.ipos(w.Instr), "exception: executed once under sync.Once.Do (lazy schema cache)")
 				continue
 			}
-			c.Fail("SHR-1", fk, construct, p.ipos(w.Instr), w.What+" shared memory: "+why)
+			c.Fail(rule, fk, construct, p.ipos(w.Instr), w.What+" shared memory: "+why)
 		}
 	}
 }
